@@ -2,7 +2,7 @@
 import math
 from fractions import Fraction as F
 
-import numpy as np
+from ..core import NP as np
 
 from .. import core, objects as O
 from ..core import q, qs, guarded, same, unq
@@ -256,6 +256,23 @@ def oracle_default(rep, case, out):
 
 # ------------------------------------------------------------------ generators
 def gen_merge(rng, nmax):
+    """a pair of sets in every arrangement a caller may hold them in: the function is documented for array-likes "in the
+    same unit", not for sorted ones, so either input may arrive descending, in arbitrary order or with repeated points"""
+    c = gen_merge_sorted(rng, nmax)
+    if c['a'] is None or c['b'] is None:
+        return c
+    for k in ('a', 'b'):
+        r = rng.random()
+        if r < 0.15:
+            c[k] = c[k][::-1]
+        elif r < 0.25:
+            v = list(c[k]) + ([rng.choice(c[k])] if rng.random() < 0.5 else [])
+            rng.shuffle(v)
+            c[k] = v
+    return c
+
+
+def gen_merge_sorted(rng, nmax):
     if rng.random() < 0.06:
         a = None if rng.random() < 0.5 else sorted({float(rng.randint(1, 50)) for _ in range(rng.randint(1, 4))})
         b = None if (a is not None or rng.random() < 0.5) else [1.0, 2.0]
